@@ -19,6 +19,8 @@
 #include <engine/verif.h>
 #include <kits/chainsim.h>
 
+#include <util/time.h>
+
 #include <boost/multiprecision/cpp_int.hpp>
 
 #include <cstdio>
@@ -84,7 +86,7 @@ std::map<std::string, std::pair<uint64_t, uint64_t>> SnapshotDir(const fs::path&
 } // namespace
 
 VERIF_TARGET(c58_unrequested, nullptr, 16, 120,
-             "regtest node at tip 104..112, minimum chain work none or +-1 work unit around a chosen height (near the tip, near tip+288, anywhere), "
+             "regtest node at tip 104..112 (40% of cases: minimum chain work reached with a recent tip so that IBD is left, then InvalidateBlock drops the tip below the minimum again), minimum chain work none or +-1 work unit around a chosen height (near the tip, near tip+288, anywhere), "
              "headers of a 300-block side chain (fork at the base tip or 4 below; all headers or a prefix); then <=12 ops: UNREQUESTED delivery of the side "
              "block at height tip+{-2..2} / tip+288+{-2..2} / minwork height+{-1..1} / anywhere (incl. the first block whose header is new), advance the "
              "tip, duplicate unrequested delivery, requested redelivery of a dropped block, requested delivery of a short side prefix until it has more "
@@ -92,13 +94,19 @@ VERIF_TARGET(c58_unrequested, nullptr, 16, 120,
              "flag, blocks/ directory byte-identical. non-trivial = at least one stored and one dropped unrequested delivery within +-1 of a boundary "
              "and one accepted requested redelivery; distinct = (boundary, offset, verdict) sequence")
 {
+    SetMockTime(0);
     // ---- choices that shape the node
     int w = s.boolean() ? 1 : 0;
     int k = s.range<int>(0, 8);
+    // history shape "minimum chain work reached, initial block download left, then the tip falls back below the minimum" (InvalidateBlock):
+    // the minimum-chain-work condition must keep protecting the node in that state
+    const bool leave_ibd = s.chance(100);
+    if (leave_ibd) k = std::max(k, 2);
     const int T0 = 104 + k;
     const int side_first_h = (w == 0 ? 105 : 101);
     int m = s.chance(60) ? s.range<int>(1, NSIDE) : NSIDE; // side headers announced up front
     unsigned minsel = s.pick<unsigned>({0, 0, 0, 1, 1, 2, 0, 3, 1, 4}); // 0 none, 1 near the tip, 2 near tip+288, 3 anywhere, 4 above everything
+    if (leave_ibd) minsel = 5; // at or just below the work of a height the main chain reaches
     int hm = 0, moff = 0;
     const cpp_int proof = BlockProof(0x207fffff);
     auto work_at = [&](int h) { return proof * (h + 1); }; // genesis has height 0 and counts
@@ -107,8 +115,9 @@ VERIF_TARGET(c58_unrequested, nullptr, 16, 120,
         if (minsel == 1) hm = T0 + s.range<int>(-2, 2);
         else if (minsel == 2) hm = T0 + 288 + s.range<int>(-2, 2);
         else if (minsel == 3) hm = T0 + s.range<int>(0, 292);
+        else if (minsel == 5) hm = T0 - s.range<int>(0, std::min(k - 1, 3));
         else hm = 1000; // above everything
-        moff = s.range<int>(-1, 1);
+        moff = minsel == 5 ? s.range<int>(-1, 0) : s.range<int>(-1, 1);
         minwork = work_at(hm) + moff;
     }
     ChainSimOpts o;
@@ -120,8 +129,12 @@ VERIF_TARGET(c58_unrequested, nullptr, 16, 120,
     assert(sim.block_store.at(base[0])->nBits == 0x207fffff);
     const auto& side = g_cache.side[w];
     int main_next = 0;
+    bool main_dead = false; // a main-chain block was invalidated: the main chain cannot be extended any more
+    if (leave_ibd) SetMockTime(int64_t(g_cache.main_ext[k - 1]->nTime) + 1); // the tip is "recent": IBD ends as soon as the tip has the minimum chain work
     for (; main_next < k; ++main_next) { auto d = sim.Deliver(g_cache.main_ext[main_next]); assert(d.processed); }
     assert(sim.TipHeight() == T0);
+    const bool ibd_left = !sim.chainman().IsInitialBlockDownload();
+    if (leave_ibd) st.cls(ibd_left ? "ibd-left" : "ibd-exit-failed");
     {
         std::vector<CBlockHeader> hs;
         for (int i = 0; i < m; ++i) hs.push_back(static_cast<const CBlockHeader&>(*side[i]));
@@ -154,6 +167,23 @@ VERIF_TARGET(c58_unrequested, nullptr, 16, 120,
         if (i + 1 > known_headers) known_headers = i + 1;
     };
 
+    bool below_min_after_ibd = false;
+    if (leave_ibd) {
+        // the tip falls back (manual invalidation of a recent main-chain block, as the RPC does it): IBD stays "left" (one-way latch)
+        int j = s.range<int>(0, k - 1); // main_ext[j] has height 105+j; the new tip has height 104+j
+        CBlockIndex* pi = node_index(g_cache.main_ext[j]->GetHash());
+        BlockValidationState state;
+        bool ok = sim.chainstate().InvalidateBlock(state, pi);
+        assert(ok);
+        sim.chainstate().ActivateBestChain(state);
+        sim.SyncSignals();
+        main_dead = true;
+        int T = sim.TipHeight();
+        below_min_after_ibd = ibd_left && !sim.chainman().IsInitialBlockDownload() && work_at(T) < minwork;
+        if (below_min_after_ibd) st.cls("ibd-left-then-tip-below-minwork");
+        st.mix(uint64_t(950 + j));
+        st.note("left IBD=", ibd_left, "; invalidated main block h=", 105 + j, " -> tip h=", T, work_at(T) < minwork ? " (below minimum chain work)" : "");
+    }
     unsigned nops = s.range<unsigned>(1, 12);
     for (unsigned op = 0; op < nops; ++op) {
         unsigned kind = s.range<unsigned>(0, 9);
@@ -201,6 +231,7 @@ VERIF_TARGET(c58_unrequested, nullptr, 16, 120,
                 if (!c_work) st.cls("dropped-less-work");
                 if (!c_height) st.cls("dropped-too-far-ahead");
                 if (!c_min) st.cls("dropped-below-minwork");
+                if (!c_min && c_work && c_height && below_min_after_ibd) st.cls("post-ibd-below-minwork-drop");
                 if (h == T - 1 || h == T + 289 || (!c_min && work_at(h + 1) >= minwork)) { near_dropped++; st.cls("dropped-at-boundary"); }
             } else {
                 VCHECK(have, "c58.eligible-not-stored", ctx, "processed", dl.processed, dl.verdict ? StateStr(*dl.verdict) : "");
@@ -214,7 +245,7 @@ VERIF_TARGET(c58_unrequested, nullptr, 16, 120,
             }
         } else if (kind == 7) {
             // ---- the tip advances (requested delivery of the next main-chain block); boundaries move with it unless a side chain took over
-            if (main_next >= NMAIN) continue;
+            if (main_next >= NMAIN || main_dead) continue;
             auto d = sim.Deliver(g_cache.main_ext[main_next++]);
             assert(d.processed);
             st.mix(uint64_t(900)); st.cls("tip-advance");
@@ -247,5 +278,6 @@ VERIF_TARGET(c58_unrequested, nullptr, 16, 120,
     for (int i : std::vector<int>(dropped)) { requested(i, "final"); redelivered++; }
     if (redelivered) st.cls("redelivery-accepted");
     st.nontrivial = near_stored > 0 && near_dropped > 0 && redelivered > 0;
+    SetMockTime(0);
     st.note("stored-at-boundary=", near_stored, " dropped-at-boundary=", near_dropped, " redelivered=", redelivered);
 }
